@@ -257,6 +257,11 @@ class Grid:
 EXTRA_REQUESTS = {
     # FX-C20-9: nearest output divider 129 > 128 while the boundary divider 128 is inside the margin
     "GW5APLL": [(12e6, [(6.25e6, 0, 1e-2)]), (12e6, [(6.25e6, 0, 0)])],
+    # outputs with DIFFERENT margins whose ratio to the input is not exact: the derived (divided) output must be judged by its own margin,
+    # stricter (refusal expected) or looser (a setting exists) than the margin of the fastest output
+    "GW1NPLL": [(100e6, [(13.5e6, 0, 1e-4), (27e6, 0, 1e-2)]), (27e6, [(100e6, 0, 1e-2), (50e6, 0, 1e-4)]), (27e6, [(54e6, 0, 1e-4), (17.9e6, 0, 1e-2)]),
+                (27e6, [(100e6, 0, 1e-4), (50e6, 0, 1e-2)])],
+    "GW2APLL": [(100e6, [(13.5e6, 0, 1e-4), (27e6, 0, 1e-2)]), (27e6, [(100e6, 0, 1e-2), (50e6, 0, 1e-4)]), (27e6, [(54e6, 0, 1e-4), (17.9e6, 0, 1e-2)])],
 }
 
 
@@ -286,8 +291,10 @@ class GowinGrid(Grid):
                 for ks in ((1, 1, 3, 2), (2, 3, 1, 1), (1, 3, 2, 4)):
                     yield Req(fin, [(P / k, 90 if (i == ks.index(1)) else 0, 1e-2) for i, k in enumerate(ks)])
             for fs in itertools.product(self.out3 + [27e6], repeat=2):
-                for m in (1e-2, 1e-4):
-                    yield Req(fin, [(fs[0], 0, m), (fs[1], 0, m)])
+                for ms in ((1e-2, 1e-2), (1e-4, 1e-4), (1e-2, 1e-4), (1e-4, 1e-2)):       # equal and different margins on inexact ratios
+                    yield Req(fin, [(fs[0], 0, ms[0]), (fs[1], 0, ms[1])])
+        for fin, outs in EXTRA_REQUESTS.get(self.fam.name, ()):
+            yield Req(fin, list(outs))
 
 
 class OscGrid:
